@@ -214,6 +214,10 @@ def main(argv):
                                            g['solver_s'], g['wall_s']))
     rc = 0
     replay_dir = os.path.join(VERIF, 'replays', pid)
+    if os.path.isdir(replay_dir):
+        for fn in os.listdir(replay_dir):
+            if fn.endswith('.json'):
+                os.unlink(os.path.join(replay_dir, fn))
     if violations or nofail:
         os.makedirs(replay_dir, exist_ok=True)
     seen = set()
